@@ -98,7 +98,7 @@ class StubBox(gym.spaces.Box):
         return [seed]
 
 
-class RecEnv:
+class RecEnv(gym.Env):
     """Recording environment: fresh observation tags, symbolic reward / terminated / truncated.
     Asserts that it is never stepped after an episode end without a reset."""
 
@@ -106,7 +106,8 @@ class RecEnv:
     spec = None
     render_mode = None
 
-    def __init__(self, world, discrete, max_steps=64, int_obs=False):
+    def __init__(self, world, discrete, max_steps=64, int_obs=False, symbolic_rewards=True):
+        self.symbolic_rewards = symbolic_rewards
         self.w = world
         self.n_steps = 0
         self.n_resets = 0
@@ -153,9 +154,11 @@ class RecEnv:
         self.n_steps += 1
         k = self.n_steps
         nobs = self._tag(k)
-        r = sym_real(f"r{k}")
+        r = sym_real(f"r{k}") if self.symbolic_rewards else 0.0
         term = sym_bool(f"term{k}")
         trunc = sym_bool(f"trunc{k}")
+        if getattr(self, "force_end_at", None) == k:
+            ctx.assume(b_or(term, trunc))  # episodes of this environment are finite (harness assumption)
         self.ep_len += 1
         self.ep_ret = self.ep_ret + r
         rec = {"k": k, "action": action, "obs": self.cur_obs, "next_obs": nobs, "reward": r, "terminated": term, "truncated": trunc}
@@ -163,7 +166,7 @@ class RecEnv:
         self.w.emit("step", k, **rec)
         self.cur_obs = nobs
         self.done = b_or(term, trunc)
-        info = {"episode": {"r": self.ep_ret, "l": self.ep_len, "t": 0.0}}
+        info = {}
         return nobs, r, term, trunc, info
 
     def close(self):
